@@ -228,6 +228,9 @@ class FnState:
                 if name in MUT_FUNCS and argvals:
                     for v in argvals[0]: self.atoms.append(("mutate", v, e.lineno, "np." + name))
                 if name in VIEW_FUNCS and argvals: return set(argvals[0])
+                if name in ("array", "require", "ascontiguousarray", "asfortranarray") and argvals and \
+                        (name != "array" or any(k.arg == "copy" and not (isinstance(k.value, ast.Constant) and k.value.value is True) for k in e.keywords)):
+                    return set(argvals[0])          # np.array(x, copy=False), np.require, np.ascontiguousarray: may return x itself
                 if name == "apply_along_axis" and e.args:
                     return self.apply_along_axis(e)
                 return set()
@@ -243,6 +246,8 @@ class FnState:
                     return {self.elts_of(v) if self.kind.get(v) == "list" else v for v in recv}
                 return set()
             if name in VIEW_METHODS: return recv
+            if name == "astype" and any(k.arg == "copy" and not (isinstance(k.value, ast.Constant) and k.value.value is True) for k in e.keywords):
+                return recv          # astype(..., copy=False) hands back the receiver itself whenever no cast is needed
             if name in FRESH_METHODS: return set()
             # koala function reached through a module alias (flux_finder.find_flux_sector, graph_utils.make_dual ...)
             if name in self.an.fns: return self.koala_call(name, e, argvals)
